@@ -9,6 +9,10 @@ CHECKS = {
    tech="bounded exhaustive enumeration of decoder inputs and of values per length class, differential against the consensus (de)serialiser",
    text="Every byte string in the stated finite sets (all strings <= 2 bytes quick / <= 3 thorough, class and length-prefix alphabets, every truncation and prefix bit flip of valid encodings) is decoded by the real decoder and by clvmr; every tree in the stated sets is serialised, compared byte for byte with clvmr and decoded again. Exhaustive inside the bounds; says nothing about unstructured inputs longer than the bounds.",
    note="Trusted: clvmr 0.16.2 node_to_bytes/node_from_bytes as the consensus format; the harness's own 40-line serialiser is cross-checked against clvmr on every value."),
+ "C01": dict(engine="progmc", cat="exploration", ref="DESIGN.md 4/C01",
+   tech="bounded exhaustive enumeration of surface programs per construct family x dialect x entry-point option set, compiled code under the consensus evaluator vs an independent reference interpreter",
+   text="Programs are generated from the harness's own AST (never parsed by the repository) in five exhaustively enumerated sub-spaces: binder chains of length <= 2 (thorough 3) over 13 binder kinds x 2 binding variants x 3 name policies; every parameter tree with <= 3 (4) leaves plus flat/improper lists of up to 40 parameters in 6 function kinds, also with operator-lookalike names; every boundary literal and value-returning operator in 8 syntactic positions; call graphs with recursion, constant calls and &rest tails at every call site; small expression kernels. Each is compiled for all 6 sigils under both option sets the entry points derive and run by clvmr on 2-3 valuations; whenever the reference interpreter returns v the compiled code must return v.",
+   note="Trusted: the reference interpreter (harness/src/lang.rs, ~400 lines, operators delegated to clvmr) as the statement of call-by-value meaning for the generated fragment; clvmr. One-directional; rejected programs make no claim. Known findings F13 F14 F27 F28 are matched by dialect + program feature + symptom."),
  "C04": dict(engine="clvmmc", cat="exploration", ref="DESIGN.md 4/C04",
    tech="bounded exhaustive enumeration of CLVM trees and of a path/wrapper/re-rooting family, optimiser output vs original under the consensus evaluator",
    text="Every CLVM tree with <= 4 (thorough 5) leaves over a 16-atom core alphabet, every (a (q . S) ARGS) with S <= 3 (4) leaves x 9 ARGS forms, and the product of ~1.7k (thorough ~4.8k) path atoms (1..9 bytes, all-ones, top-bit-set, zero-padded) x f/r wrapper chains (all short ones, homogeneous/alternating up to 80) x 6 re-rootings is optimised by optimize_sexp (and small trees by run_optimizer in both integer modes); original and output are evaluated by clvmr in a family of environments (complete trees, 90-deep spines, trees tailored to the path's bits). Exhaustive inside these bounds; the property's 'randomly beyond' region is replaced by the structured path family.",
